@@ -280,8 +280,11 @@ func runCheck(eng *Eng, id, tier string, replay, keep bool, only string) int {
 			case "guarded", "lock", "frozen", "nil", "bounds", "div0", "typeassert", "nilcall", "dyntype", "closeclosed", "monitor", "chan", "confine":
 				f = append(f, o)
 			default:
-				if strings.HasPrefix(o.Label, "C14") {
-					f = append(f, o)
+				for _, pr := range propsOfLabel(o.Label) {
+					if pr == "C14" {
+						f = append(f, o)
+						break
+					}
 				}
 			}
 		}
